@@ -496,6 +496,7 @@ def report_files(data):
 def e2e(ck, rng, n_trees, stats, d_inc, d_exc, thorough):
     base = lib.fresh_dir("c18_e2e")
     runs = []
+    cfg_texts = {}
     for ti in range(n_trees):
         children = gen_tree(rng, 3)
         # make sure the defaults have something to bite on, at two depths
@@ -510,10 +511,17 @@ def e2e(ck, rng, n_trees, stats, d_inc, d_exc, thorough):
         cfgs = [(None, d_inc, d_exc, True)]
         inc, exc = rng.choice([i for i in INCLUDES if i]), rng.choice([e for e in EXCLUDES if e is not None])
         rec = rng.random() < 0.8
-        cfg = os.path.join(base, "e%d" % ti, "cfg.toml")
-        with open(cfg, "w") as f:
-            f.write("[analysis]\nrecursive = %s\ninclude_patterns = %s\n%s" % (
-                "true" if rec else "false", json.dumps(inc), ("exclude_patterns = %s\n" % json.dumps(exc)) if exc else ""))
+        # the configuration reaches the run through --config, or is discovered in the project root as .pyscn.toml / pyproject.toml;
+        # an empty exclude list is written out half of the time (it means: the defaults, like an absent key)
+        how = rng.choice(["-c", ".pyscn.toml", "pyproject.toml"])
+        cfg = os.path.join(base, "e%d" % ti, "cfg.toml") if how == "-c" else os.path.join(root, how)
+        pre = "tool.pyscn." if how == "pyproject.toml" else ""
+        text = "%s[%sanalysis]\nrecursive = %s\ninclude_patterns = %s\n%s" % (
+            "[project]\nname = \"x\"\n\n" if how == "pyproject.toml" else "",
+            pre, "true" if rec else "false", json.dumps(inc),
+            ("exclude_patterns = %s\n" % json.dumps(exc)) if (exc or rng.random() < 0.5) else "")
+        cfg_texts[cfg] = text       # written just before the run and removed after it (the default runs must not discover it)
+        stats["e2e_config_" + how] = stats.get("e2e_config_" + how, 0) + 1
         cfgs.append((cfg, inc, exc if exc else d_exc, rec))
         for cfgpath, inc, exc, rec in cfgs:
             d = () if rng.random() < 0.5 else rng.choice(dirs)
@@ -538,8 +546,14 @@ def e2e(ck, rng, n_trees, stats, d_inc, d_exc, thorough):
         spec = sorted({loc_str(x) for x in spec})
         rep = os.path.join(cwd, ".pyscn")
         shutil.rmtree(rep, ignore_errors=True)
-        args = ["analyze", "--json", "--no-open", "--select", "complexity", "--min-complexity", "1"] + (["-c", cfgpath] if cfgpath else []) + tg
+        explicit = bool(cfgpath) and os.path.basename(cfgpath) == "cfg.toml"
+        args = ["analyze", "--json", "--no-open", "--select", "complexity", "--min-complexity", "1"] + (["-c", cfgpath] if explicit else []) + tg
+        if cfgpath:
+            with open(cfgpath, "w") as f:
+                f.write(cfg_texts[cfgpath])
         rc, so, se = lib.pyscn(args, cwd)
+        if cfgpath:
+            os.remove(cfgpath)
         data = None
         rdir = os.path.join(rep, "reports")
         if os.path.isdir(rdir):
@@ -549,7 +563,7 @@ def e2e(ck, rng, n_trees, stats, d_inc, d_exc, thorough):
         shutil.rmtree(rep, ignore_errors=True)
         stats["evaluations"] += 1
         stats["e2e_runs"] += 1
-        replay = {"kind": "e2e", "tree": children, "root": root, "cwd": cwd, "args": args, "config": open(cfgpath).read() if cfgpath else None,
+        replay = {"kind": "e2e", "tree": children, "root": root, "cwd": cwd, "args": args, "config": cfg_texts[cfgpath] if cfgpath else None, "config_file": cfgpath,
                   "spec": spec}
         if data is None:
             if spec:
@@ -574,6 +588,152 @@ def e2e(ck, rng, n_trees, stats, d_inc, d_exc, thorough):
     stats["disagreements"] += nviol
 
 
+
+# ---------------------------------------------------------------------------------------
+# part E: symbolic links ([analysis] follow_symlinks) — Cli/FileSelLinks.v
+# ---------------------------------------------------------------------------------------
+REQ_LINKS = ("From Coq Require Import NArith List Bool.\nImport ListNotations.\n"
+             "From PV Require Import Gen.FileSelConst Cli.Glob Cli.FileSel Cli.FileSelLinks Props.C18Links.\nOpen Scope N_scope.")
+KIND_COQ = {"file": "KFile", "dir": "KDir", "dangling": "KDangling"}
+
+
+def clnode(nd):
+    if nd[0] == "F":
+        return "LFile %s" % cstr(nd[1])
+    if nd[0] == "D":
+        return "LDir %s %s" % (cstr(nd[1]), clist([clnode(c) for c in nd[2]]))
+    return "LLink %s %s %s" % (cstr(nd[1]), KIND_COQ[nd[2]], clist([clnode(c) for c in nd[3]]))
+
+
+def materialize_links(path, children, outside, counter):
+    os.makedirs(path, exist_ok=True)
+    for c in children:
+        p = os.path.join(path, c[1])
+        if c[0] == "F":
+            with open(p, "w") as f:
+                f.write(PY_BODY if c[1].lower().endswith((".py", ".pyi")) else "text\n")
+        elif c[0] == "D":
+            materialize_links(p, c[2], outside, counter)
+        else:
+            counter[0] += 1
+            if c[2] == "file":
+                tgt = os.path.join(outside, "f%d.py" % counter[0])
+                with open(tgt, "w") as f:
+                    f.write(PY_BODY)
+            elif c[2] == "dir":
+                tgt = os.path.join(outside, "d%d" % counter[0])
+                materialize_links(tgt, c[3], outside, counter)
+            else:
+                tgt = os.path.join(outside, "nothing%d" % counter[0])
+            os.symlink(tgt, p)
+
+
+def lworld(root, children):
+    parts = [p for p in root.split("/") if p]
+    nd = ("D", parts[-1], children)
+    for p in reversed(parts[:-1]):
+        nd = ("D", p, [nd])
+    return ("D", "", [nd])
+
+
+LINK_TREES = [
+    # (cause the implementation is known to get wrong, entries of the project root)
+    ("none", [("F", "a.py"), ("D", "sub", [("F", "b.py")])]),
+    ("file-link", [("F", "a.py"), ("L", "l.py", "file", []), ("D", "sub", [("F", "b.py"), ("L", "m.pyi", "file", [])])]),
+    ("file-link", [("F", "a.py"), ("L", "test_l.py", "file", []), ("L", "notes.txt", "file", [])]),
+    ("dir-link", [("F", "a.py"), ("L", "dl", "dir", [("F", "c.py"), ("D", "deep", [("F", "d.py")]), ("F", "test_c.py")])]),
+    ("dir-link", [("F", "a.py"), ("D", "sub", [("L", "pkg", "dir", [("F", "e.py")]), ("F", "b.py")])]),
+    ("dangling", [("F", "a.py"), ("L", "gone.py", "dangling", []), ("D", "sub", [("F", "b.py")])]),
+    ("dangling", [("F", "a.py"), ("D", "sub", [("F", "b.py"), ("L", "gone.pyi", "dangling", [])])]),
+    ("none", [("F", "a.py"), ("L", "gone.txt", "dangling", []), ("L", "test_gone.py", "dangling", []), ("L", ".hid.py", "dangling", [])]),
+    ("dir-link", [("F", "a.py"), ("L", "mod.py", "dir", [("F", "x.py")])]),
+]
+
+
+def links_part(ck, rng, stats, d_inc, d_exc, thorough):
+    base = lib.fresh_dir("c18_links")
+    runs = []
+    for ti, (cause, children) in enumerate(LINK_TREES):
+        root = os.path.join(base, "t%d" % ti, "proj")
+        outside = os.path.join(base, "t%d" % ti, "outside")
+        os.makedirs(outside, exist_ok=True)
+        children = sorted(children, key=lambda c: c[1].encode())
+        materialize_links(root, children, outside, [0])
+        for follow in ((None, False, True) if thorough or ti in (1, 3) else (rng.choice([None, False]), True)):
+            runs.append((ti, cause, root, children, follow))
+    items = []
+    for ti, cause, root, children, follow in runs:
+        items.append("run_links %s (%s) %s %s true %s %s" % (cbool(bool(follow)), clnode(lworld(root, children)), cstrs([p for p in root.split("/") if p]),
+                                                             clist([cspath(".")]), cstrs(d_inc), cstrs(d_exc)))
+    vals = lib.parse_coq_values(lib.coq_eval("C18_links", REQ_LINKS, "Eval vm_compute in %s.\n" % clist(items)))[0]
+    nviol = 0
+    for (ti, cause, root, children, follow), (mcode, mspec) in zip(runs, vals):
+        cfg = os.path.join(root, ".pyscn.toml")
+        if follow is None:
+            if os.path.exists(cfg):
+                os.remove(cfg)
+        else:
+            with open(cfg, "w") as f:
+                # the patterns are spelled out: a configuration file without them has other defaults than no file (C17's business)
+                f.write("[analysis]\nfollow_symlinks = %s\ninclude_patterns = %s\nexclude_patterns = %s\n"
+                        % ("true" if follow else "false", json.dumps(d_inc), json.dumps(d_exc)))
+        shutil.rmtree(os.path.join(root, ".pyscn"), ignore_errors=True)
+        args = ["analyze", "--json", "--no-open", "--select", "complexity", "--min-complexity", "1", "."]
+        rc, so, se = lib.pyscn(args, root)
+        data = None
+        rdir = os.path.join(root, ".pyscn", "reports")
+        if os.path.isdir(rdir):
+            fs = sorted(f for f in os.listdir(rdir) if f.endswith(".json"))
+            if fs:
+                data = json.load(open(os.path.join(rdir, fs[-1])))
+        shutil.rmtree(os.path.join(root, ".pyscn"), ignore_errors=True)
+        stats["evaluations"] += 1
+        stats["link_runs"] = stats.get("link_runs", 0) + 1
+        spec = sorted({loc_str(x) for x in mspec})
+        model = None if mcode is None else sorted({loc_str(x) for x in mcode[1]})
+        cx = (data or {}).get("complexity")
+        impl = None if (cx is None) else sorted({abs_loc(root, f["FilePath"]) for f in (cx.get("Functions") or [])})
+        replay = {"kind": "links", "tree": children, "root": root, "follow_symlinks": follow, "args": args, "exit": rc, "spec": spec, "model": model,
+                  "impl": impl, "stderr": se[-400:],
+                  "how": "entries ('F', name) / ('D', name, children) / ('L', name, file|dir|dangling, entries of the directory pointed to)"}
+        if impl != spec or (impl is not None and rc != 0):
+            e = ck.match_known({"part": "links", "cause": cause, "follow": bool(follow)})
+            if e and impl == model:
+                stats["known_link_cases"] = stats.get("known_link_cases", 0) + 1
+                ck.known_finding(e)
+            else:
+                nviol += 1
+                if nviol <= 3:
+                    ck.violation("pyscn analyze . with follow_symlinks %s: %s; the files to analyse are %s"
+                                 % ({None: "unset", False: "= false", True: "= true"}[follow],
+                                    "every analysis fails (exit %s)" % rc if impl is None else "the report covers %s" % [os.path.relpath(x, root) for x in impl],
+                                    [os.path.relpath(x, root) for x in spec]), replay)
+        if impl != model:
+            ck.broken_ties.append("links: tree %s follow %s: pyscn analyses %s, model Cli/FileSelLinks.v says %s" % (children, follow, impl, model))
+    stats["disagreements"] += nviol
+
+
+def cli_errors(ck, stats):
+    """Targets that cannot be analysed: the run says so and writes no report that looks like a result."""
+    base = lib.fresh_dir("c18_cli")
+    os.makedirs(os.path.join(base, "proj", "docs"))
+    with open(os.path.join(base, "proj", "a.py"), "w") as f:
+        f.write(PY_BODY)
+    with open(os.path.join(base, "proj", "docs", "notes.txt"), "w") as f:
+        f.write("text\n")
+    for tg, why in ((["nonexistent"], "a target that does not exist"), (["a.py", "nonexistent/x.py"], "one of two targets does not exist"),
+                    (["docs"], "a directory without Python files"), (["docs/notes.txt"], "a file that is no Python file")):
+        shutil.rmtree(os.path.join(base, "proj", ".pyscn"), ignore_errors=True)
+        rc, so, se = lib.pyscn(["analyze", "--json", "--no-open", "--select", "complexity"] + tg, os.path.join(base, "proj"))
+        stats["evaluations"] += 1
+        rep = os.path.join(base, "proj", ".pyscn", "reports")
+        written = sorted(os.listdir(rep)) if os.path.isdir(rep) else []
+        if rc == 0 or written:
+            ck.violation("pyscn analyze %s (%s): exit %s, reports written %s" % (" ".join(tg), why, rc, written),
+                         {"kind": "cli-error", "targets": tg, "exit": rc, "written": written, "stderr": se[-300:]})
+            stats["disagreements"] += 1
+
+
 def main(tier):
     ck = lib.Check("C18", tier)
     ck.prepare("C18.v")
@@ -595,6 +755,8 @@ def main(tier):
             eval_cases(cases)
             decide_cases(ck, cases, stats)
             e2e(ck, rng, 15 if thorough else 5, stats, d_inc, d_exc, thorough)
+            links_part(ck, rng, stats, d_inc, d_exc, thorough)
+            cli_errors(ck, stats)
         except Exception as e:  # the machinery itself broke: never silently pass
             ck.broken_ties.append("correspondence machinery failed: %s" % (str(e)[-1200:]))
     elif not ck.go_ok:
